@@ -36,3 +36,18 @@ Theorem c01_solve_backward : forall u, 0 <= u -> u < 1 -> forall n B L U c y x,
     <= gamma u (3 * n) * bigsum (fun j => bigsum (fun k => Rabs (L i k) * Rabs (U k j)) n * Rabs (x j)) n.
 Proof. exact solve_backward. Qed.
 Print Assumptions c01_solve_backward.
+
+From SLU Require Import NumPerm.
+
+(* the same bound in the USER's numbering: perm_r / perm_c as returned (B (pr i) (pc j) = A i j, c (pr i) = b i, X j = x (pc j)) *)
+Theorem c01_gssv_backward : forall u, 0 <= u -> u < 1 -> forall n (A : mat) (b X : nat -> R) (pr pc : nat -> nat) B L U c y x,
+  perm_on n pr -> perm_on n pc ->
+  (forall i j, (i < n)%nat -> (j < n)%nat -> B (pr i) (pc j) = A i j) ->
+  (forall i, (i < n)%nat -> c (pr i) = b i) ->
+  (forall j, (j < n)%nat -> X j = x (pc j)) ->
+  lu_rel u n B L U -> lsolve_rel u n L c y -> usolve_rel u n U y x -> INR (3 * n) * u < 1 ->
+  forall i, (i < n)%nat ->
+    Rabs (b i - bigsum (fun j => A i j * X j) n)
+    <= gamma u (3 * n) * bigsum (fun j => bigsum (fun k => Rabs (L (pr i) k) * Rabs (U k (pc j))) n * Rabs (X j)) n.
+Proof. exact gssv_backward. Qed.
+Print Assumptions c01_gssv_backward.
